@@ -720,6 +720,16 @@ var sfResignedList = []sfResigned{
 	{name: "not-after-absent", key: "accepted-outside-window:not_after-absent", mutate: func(i *types.FetchNodeCredentialsInfo) { i.NotAfter = nil }},
 	{name: "not-after-zero", key: "accepted-outside-window:not_after-zero", mutate: func(i *types.FetchNodeCredentialsInfo) { i.NotAfter = &timestamppb.Timestamp{} }},
 	{name: "both-timestamps-absent", key: "accepted-outside-window:not_after-absent", mutate: func(i *types.FetchNodeCredentialsInfo) { i.NotBefore, i.NotAfter = nil, nil }},
+	// the node's own ed25519 key bytes inside a SubjectPublicKeyInfo that declares another algorithm (X25519: the OID
+	// differs in its last byte); the bundle is signed with the matching ed25519 private key and still says "ed25519"
+	// in its type field. The key named inside the bundle is then not an Ed25519 key.
+	{name: "certificate-key-pkix-declares-x25519", key: "accepted-with-non-ed25519-key:pkix-declares-x25519", mutate: func(i *types.FetchNodeCredentialsInfo) {
+		if b := i.CertificatePublicKeyPkix; len(b) == 44 && b[8] == 0x70 {
+			nb := append([]byte{}, b...)
+			nb[8] = 0x6e
+			i.CertificatePublicKeyPkix = nb
+		}
+	}},
 	{name: "signed-by-key-not-named-in-bundle", key: "accepted-signature-of-foreign-key", other: true},
 }
 
